@@ -41,6 +41,8 @@ def run(name, checks):
             if rc!=0: print(f"  {c}: exit {rc} {detail[:200]}", flush=True)
     finally:
         sh("git checkout -q -- .", cwd="/repo")
+        # the checks rewrote the evidence files while the change was applied: restore the committed ones
+        sh("git checkout -q -- evidence", cwd=VERIF)
         # files the patch created are untracked in /repo: remove exactly those
         lines = open(f"{d}/patch.diff").read().splitlines()
         for k, l in enumerate(lines):
